@@ -266,6 +266,11 @@ func (c *Ctx) isConstTableX9(g *ssa.Global) bool {
 					if !readOnlyUseX9(x, 0) {
 						ok = false
 					}
+				case *ssa.Slice:
+					// a slice of the table that is itself only read (ranged over, indexed, measured)
+					if x.X != ssa.Value(g) || !readOnlyUseX9(x, 0) {
+						ok = false
+					}
 				case *ssa.DebugRef:
 				case *ssa.Call:
 					if !readOnlyArgX9(c, x, g) {
